@@ -159,6 +159,7 @@ structure SinkSt where
   pending : Array PRec := #[]       -- file/stream sink: everything dispatched to it so far
   aout : Bool := false              -- AsyncStdoutSink: write(2) on fd 1 from the back end
   fl : FileLen := {}                -- file sink: the model state (lengths) replayed from the recorded system calls
+  fneed : Bool := false             -- file sink: need_reopen_ (a setter was called while a tail was cached)
   pipe : Bool := false              -- aoutp: fd 1 is a full non-blocking pipe until `off`
   reconf : Bool := false            -- file sink: setFilePath/Prefix/SyncEnable/MaxSize were called while it was in use
   tailKept : Bool := false          -- file sink: the last disable() ended with the kernel still refusing (a tail is retained in memory)
@@ -250,12 +251,14 @@ def takeLoopS : Nat → Nat → List KEv → List SAns → Except String (List S
 
 structure Replay where
   fl : FileLen
+  need : Bool := false                  -- need_reopen_
+  deferred : Bool := false              -- some reconfiguration found a cached tail behind an open file
   max : Nat := 0
   refusedAfterOff : Bool := false       -- some system call was refused after disable() began
   refused : Bool := false               -- some system call was refused at all
   sawOff : Bool := false
 
-/-- walk the events of a file sink, one `flush()` at a time, through `flushKLen` -/
+/-- walk the events of a file sink, one `flush()` at a time, through `flushRLen` / `reopenLen` -/
 def replayFile (max : Nat) : Nat → Replay → List KEv → Except String Replay
   | 0, r, _ => .ok r
   | _, r, [] => .ok r
@@ -267,20 +270,22 @@ def replayFile (max : Nat) : Nat → Replay → List KEv → Except String Repla
     | .pl _ => .error "poll() on a file sink"
     | .setMax n => replayFile n fuel { r with max := n } evs
     | .reopen =>
-      -- CHECK_CLOSE_RESET_FD(fd_): the open file (if any) is closed whatever its size; the cache is not touched
-      if r.fl.cur.isSome then
+      -- closeLogFile(): a cached tail behind an open file defers the close to the flush() that writes the tail (need_reopen_);
+      -- otherwise the open file (if any) is closed at once, whatever its size
+      let r' := reopenLen { st := r.fl, need := r.need }
+      if r.fl.cur.isSome && r'.st.cur.isNone then
         match evs with
-        | .cl :: rest => replayFile max fuel { r with fl := reopenLen r.fl } rest
-        | _ => .error "a reconfiguration closes the open log file in the model; the implementation did not close it"
-      else replayFile max fuel r evs
-    | .cl => .error "close() of the log file where the model's flush() keeps it open (unwritten tail or below the limit)"
+        | .cl :: rest => replayFile max fuel { r with fl := r'.st, need := r'.need } rest
+        | _ => .error "a reconfiguration with nothing cached closes the open log file in the model; the implementation did not close it"
+      else replayFile max fuel { r with fl := r'.st, need := r'.need, deferred := r.deferred || r'.need } evs
+    | .cl => .error "close() of the log file where the model keeps it open (unwritten tail — also at a reconfiguration — or below the limit)"
     | .mk ok =>
       if r.fl.cur.isSome then .error "mkdir while a log file is open" else
       if ok then replayFile max fuel r evs
-      else replayFile max fuel (note { r with fl := flushKLen max r.fl { dirOk := false } }) evs
+      else replayFile max fuel (note { r with fl := (flushRLen max { st := r.fl, need := r.need } { dirOk := false }).st }) evs
     | .op ok =>
       if r.fl.cur.isSome then .error "open() of a new log file while the model still has one open" else
-      if !ok then replayFile max fuel (note { r with fl := flushKLen max r.fl { openOk := false } }) evs else
+      if !ok then replayFile max fuel (note { r with fl := (flushRLen max { st := r.fl, need := r.need } { openOk := false }).st }) evs else
       -- the flush goes on with its write loop on the new file
       let evs := evs.dropWhile (fun e => match e with | .sy => true | _ => false)
       match evs with
@@ -289,12 +294,13 @@ def replayFile (max : Nat) : Nat → Replay → List KEv → Except String Repla
         match takeLoop (evs.length + 1) a evs [] with
         | .error e => .error e
         | .ok (answers, rest) =>
-          let fl' := flushKLen max { r.fl with cache := a } { writes := answers }
-          let r := if answers.any (fun x => !x.soft) then note { r with fl := fl' } else { r with fl := fl' }
+          let fr := flushRLen max { st := { r.fl with cache := a }, need := r.need } { writes := answers }
+          let fl' := fr.st
+          let r := if answers.any (fun x => !x.soft) then note { r with fl := fl', need := fr.need } else { r with fl := fl', need := fr.need }
           if fl'.cur.isNone then
             match rest with
             | .cl :: rest' => replayFile max fuel r rest'
-            | _ => .error "the model's flush() closes the file here (limit reached, batch complete), the implementation did not"
+            | _ => .error "the model's flush() closes the file here (batch complete; limit reached or a reconfiguration pending), the implementation did not"
           else replayFile max fuel r rest
       | _ => .error "open() of a new log file not followed by a write"
     | .wr a _ _ =>
@@ -303,12 +309,13 @@ def replayFile (max : Nat) : Nat → Replay → List KEv → Except String Repla
       match takeLoop (evs.length + 2) a (ev :: evs) [] with
       | .error e => .error e
       | .ok (answers, rest) =>
-        let fl' := flushKLen max { r.fl with cache := a } { writes := answers }
-        let r' := if answers.any (fun x => !x.soft) then note { r with fl := fl' } else { r with fl := fl' }
+        let fr := flushRLen max { st := { r.fl with cache := a }, need := r.need } { writes := answers }
+        let fl' := fr.st
+        let r' := if answers.any (fun x => !x.soft) then note { r with fl := fl', need := fr.need } else { r with fl := fl', need := fr.need }
         if fl'.cur.isNone then
           match rest with
           | .cl :: rest' => replayFile max fuel r' rest'
-          | _ => .error "the model's flush() closes the file here (limit reached, batch complete), the implementation did not"
+          | _ => .error "the model's flush() closes the file here (batch complete; limit reached or a reconfiguration pending), the implementation did not"
         else replayFile max fuel r' rest
 
 /-- the async stdout sink: every flush is one write loop over a fresh batch (the cache is always cleared) -/
@@ -543,12 +550,13 @@ def stepOp (a : TA) (line : String) : TA :=
       let (a, s) : TA × SinkSt :=
         if evs.length != kl.length then (a.mfail s!"sink {k}: unparsable K line", s) else
         if s.kind == .file then
-          match replayFile s.fmax (evs.length + 1) { fl := s.fl, max := s.fmax } (evs.filter fun e => match e with | .offBegin => false | _ => true) with
+          match replayFile s.fmax (evs.length + 1) { fl := s.fl, need := s.fneed, max := s.fmax } (evs.filter fun e => match e with | .offBegin => false | _ => true) with
           | .error e => (a.mfail s!"sink {k}: the recorded system calls are not an execution of the model's flush(): {e}", s)
           | .ok r =>
             let want := r.fl.closed ++ r.fl.cur.toList
             let a := if want != sizes then a.mfail s!"sink {k}: file sizes {sizes} differ from the model's {want} (replayed from the recorded system calls)" else a
-            (a, { s with fl := r.fl, fmax := r.max })
+            let a := if r.deferred then { a with tags := a.tags ++ ["reconf-with-tail"] } else a
+            (a, { s with fl := r.fl, fneed := r.need, fmax := r.max })
         else if s.aout then
           match replayStdout (evs.length + 1) { fl := {} } (evs.filter fun e => match e with | .offBegin => false | _ => true) with
           | .error e => (a.mfail s!"sink {k}: the recorded write() calls on fd 1 are not an execution of the model's flush(): {e}", s)
